@@ -10,6 +10,7 @@ static struct cmd cmds[] = {
   {"c03", cmd_c03},
   {"c03e", cmd_c03e},
   {"c04", cmd_c04},
+  {"c02", cmd_c02},
   {NULL, NULL}
 };
 int main(int argc, char **argv) {
